@@ -16,6 +16,14 @@ def build(tier):
         # the skeleton cannot be extracted any more: that part is UNDECIDED, the static obligations below still decide
         groups = [z3lemma.StaticGroup("skeleton.extraction", ok=False, detail=str(e), obligation="extraction of the solver skeleton", undecided_on_fail=True)]
     groups.append(skel.init_coverage(report))
+    # state carried by the stock shift-solve operators across set_shift() calls: the BKLDLT factorization object is re-used, so compute() must rebuild
+    # everything it owns from an ARBITRARY prior state (groups shared with C10)
+    try:
+        from props import C10
+        have = set(g.name for g in groups)
+        groups += [g for g in C10.build(tier)[0] if g.name in ("bk.compute", "bk.compress_permutation") and g.name not in have]
+    except ExtractionBreak as e:
+        groups.append(z3lemma.StaticGroup("bkldlt.extraction", ok=False, detail=str(e), obligation="extraction of BKLDLT::compute", undecided_on_fail=True))
 
     meta = {"level": "proof", "trusted_base": SG.TRUSTED, "assumptions": SG.ASSUMPTIONS, "extraction": report,
             "not_covered": ['bit-level determinism of Eigen kernels and of the operator (assumed)'],
@@ -27,6 +35,8 @@ def replay(g, o, assigns, path):
     """Skeleton counterexamples are paths, not inputs: the replay searches the structured family of real inputs/histories of
     replay_src/solver_replay.cpp (mode 'history') on the REAL solvers."""
     from vlib import replay as RP
+    if g.name.startswith("bk."):
+        return RP.run_native(PROP, RP.src("C10_bkldlt_replay.cpp"), timeout=900)
     r = RP.run_native(PROP, RP.src("solver_replay.cpp"), args=["history"], timeout=900)
     if not r.get("reproduced"):
         r2 = RP.run_native(PROP, RP.src("C02_cshift_pairs_replay.cpp"), args=[2], timeout=600, name="replay2")
